@@ -36,6 +36,10 @@ def abi_type(prog, t):
         return ("void",)
     if k == "cb":
         return ("rec", [("ptr",), ("ptr",), ("ptr",)])
+    if k == "raw" and t[1].startswith("impl "):
+        # a trait object: { data, vtable { destructor, size, alignment, one function pointer per method } }
+        tr = next(x for x in prog.get("traits", []) if x["name"] == t[1][5:])
+        return ("rec", [("ptr",), ("rec", [("ptr",), ("usize",), ("usize",)] + [("ptr",) for _ in tr["methods"]])])
     raise ValueError(t)
 
 
@@ -85,7 +89,8 @@ ACCEPT = {
     "c": {"char": {"u32"}, "byte": {"u8"}},
     "dart": {"char": {"u32"}, "byte": {"u8"}},
     # JNA: Int for a 32-bit code point, Byte for a one-byte bool in fields/returns (Boolean in signatures), Byte for the raw DiplomatByte
-    "kotlin": {"char": {"i32"}, "byte": {"u8", "i8"}, "bool": {"bool", "i8"}},
+    # (JNA `Pointer` for the vtable's size/alignment words: pointer-sized integers)
+    "kotlin": {"char": {"i32"}, "byte": {"u8", "i8"}, "bool": {"bool", "i8"}, "usize": {"usize", "ptr"}},
     "kotlin-callback": {"char": {"i32", "u32"}, "byte": {"u8", "i8"}, "bool": {"bool", "i8"}, "isize": {"isize", "i64"}, "usize": {"usize", "u64"}},
 }
 
